@@ -2,7 +2,7 @@ CONSTANTS
   Cfgs <- BatchCfgs
   Kinds = {"ok", "servfail", "formerr", "tc", "garbage", "nx"}
   Faults = {"none", "sendto", "socket"}
-  Nests = {"none", "query", "cancel"}
+  Nests = {"none", "query", "cancel", "setservers"}
 INIT GInit
 NEXT GNext
 INVARIANT Emit
